@@ -104,18 +104,22 @@ def rand_hash(rng, ascii_only):
     return rand_text(rng, ascii_only)
 
 
-def rand_vars(rng, ascii_only=True, bound=2 ** 32, ts_max=7258118399):
+def rand_vars(rng, ascii_only=True, bound=2 ** 32, ts_max=7258118399, wide=False):
     o = lambda f, p=0.7: f() if rng.random() < p else None
+    # wide (C12): distances and instants over the whole u64 range of the fields - an interchange format has to carry them whatever a renderer makes of them
+    dist = lambda: rng.choice([0, 0, 1, 2, 10, 1000] + ([2 ** 31, 2 ** 32 - 1, 2 ** 32, 2 ** 40, 2 ** 53 + 1, 2 ** 63, 2 ** 64 - 1] if wide else []))
+    inst = lambda: (rng.choice([0, 1, 86399, 2 ** 31 - 1, 2 ** 31, 2 ** 32, 253402300799, 253402300800, 10 ** 12, 2 ** 53 + 1, 2 ** 63 - 1, 2 ** 63, 2 ** 64 - 1])
+                    if wide and rng.random() < 0.3 else rng.randrange(0, ts_max))
     v = dict(
         major=o(lambda: rand_num(rng, bound), 0.9), minor=o(lambda: rand_num(rng, bound), 0.85), patch=o(lambda: rand_num(rng, bound), 0.85),
         epoch=o(lambda: rand_num(rng, bound), 0.3),
         pre_release=o(lambda: (rng.choice(["Alpha", "Beta", "Rc"]), o(lambda: rand_num(rng, bound), 0.8)), 0.5),
         post=o(lambda: rand_num(rng, bound), 0.4), dev=o(lambda: rand_num(rng, bound), 0.3),
-        distance=o(lambda: rng.choice([0, 0, 1, 2, 10, 1000]), 0.6), dirty=o(lambda: rng.random() < 0.5, 0.7),
+        distance=o(dist, 0.6), dirty=o(lambda: rng.random() < 0.5, 0.7),
         bumped_branch=o(lambda: rand_text(rng, ascii_only), 0.7), bumped_commit_hash=o(lambda: rand_hash(rng, ascii_only), 0.7),
-        bumped_timestamp=o(lambda: rng.randrange(0, ts_max), 0.6),
+        bumped_timestamp=o(inst, 0.6),
         last_branch=o(lambda: rand_text(rng, ascii_only), 0.3), last_commit_hash=o(lambda: rand_hash(rng, ascii_only), 0.5),
-        last_timestamp=o(lambda: rng.randrange(0, ts_max), 0.5), last_tag_version=o(lambda: rng.choice(["1.2.3", "v1.0.0-rc.1", "1.0a1"]), 0.5),
+        last_timestamp=o(inst, 0.5), last_tag_version=o(lambda: rng.choice(["1.2.3", "v1.0.0-rc.1", "1.0a1"]), 0.5),
         custom=rand_custom(rng, ascii_only),
     )
     return v
